@@ -137,6 +137,16 @@ class Check:
         return 0
 
 
+TIMING_OUTCOMES = {"TimeoutError", "BlockingIOError", "DidNotStop"}
+
+
+def timing_event(ev):
+    """Only an outcome that a stalled scheduler can produce (the client's timeout expired) is worth re-running in isolation.  Any other
+    failure is reported as it stands: re-running ONE scenario alone would destroy the history (earlier sessions of the process) that
+    a history-dependent defect needs."""
+    return (ev or {}).get("exc") in TIMING_OUTCOMES
+
+
 def confirm_by_replay(replay_fn, replay_dict):
     """confirm callable for Check.violation: re-runs the scenario through the check's own replay(path) (silently)"""
     import tempfile, io, contextlib
